@@ -459,4 +459,37 @@ def entry_point(chk, repo):
     chk.ob('R10.9', 'quick_tidal_dissipation with spin = n, e = 0, obliquity = 0 passed exactly (array inputs): heating and the three potential derivatives vanish', not bad, '; '.join(bad[:2]), where,
            key='R10.9|limit|synchronous circular', method='array-mode interpretation + GF(p^2) PIT')
     it.array_mode = False
-    chk.floor('R10.9', 10)
+    # (d) the result of a call does not depend on the calls made before it in the same process (results kept between calls: caches keyed on part of the arguments, module-level
+    #     buffers).  Scenarios that share the eccentricity, the degree cut-off and the world but differ in ONE option are run one after the other in a single interpreter state;
+    #     each result must be what the same call returns in a fresh state.
+    scen = {
+        'e^2, l<=2, synchronous': {},
+        'e^4, l<=2, synchronous': dict(eccentricity_truncation_lvl=4),
+        'e^2, l<=3, synchronous': dict(max_tidal_order_l=3),
+        'e^4, l<=2, free spin': dict(eccentricity_truncation_lvl=4, spin_frequency=spin),
+        'e^2, l<=2, obliquity tides': dict(obliquity=I_, use_obliquity=True),
+        'e^2, l<=2, CPL': dict(rheology='cpl', fixed_k2=X.atom('k2_fixed', 'pos'), fixed_q=X.atom('Q', 'pos')),
+    }
+    KEYS = ('tidal_heating', 'dUdM', 'dUdw', 'dUdO')
+
+    def run_fresh(kw_):
+        it_ = Interp(repo, hooks={'call': call_hook, 'branch': branch_hook}, max_depth=12)
+        a_ = dict(base); a_.update(kw_)
+        return it_.call(mq, f, [], a_)
+    alone = {nm_: run_fresh(kw_) for nm_, kw_ in scen.items()}
+    orders = [list(scen), list(reversed(list(scen)))]
+    bad = []
+    for order in orders:
+        it_h = Interp(repo, hooks={'call': call_hook, 'branch': branch_hook}, max_depth=12)
+        done = []
+        for nm_ in order:
+            a_ = dict(base); a_.update(scen[nm_])
+            out_ = it_h.call(mq, f, [], a_)
+            for q in KEYS:
+                if not d.equal(X.lift(out_[q]), X.lift(alone[nm_][q])):
+                    bad.append(f'[{nm_}] after [{" ; ".join(done)}]: {q} differs from the same call in a fresh process')
+                    break
+            done.append(nm_)
+    chk.ob('R10.9', 'quick_tidal_dissipation: a call returns the same heating and potential derivatives whatever was called before it (six scenarios sharing e and the world, in two orders)',
+           not bad, '; '.join(bad[:2]), where, key='R10.9|call-history', method='sequences of calls in one interpreter state (module-level state persists) vs fresh states, GF(p^2) PIT')
+    chk.floor('R10.9', 11)
